@@ -220,13 +220,225 @@ func runConcSched(vectors, out string, shards, only int) {
 	os.WriteFile(out+"/summary.json", b, 0o644)
 }
 
+// freshValue builds a filled value of the k-th fresh type (a type nothing in this process has used).
+func freshValue(k int) interface{} {
+	t := reflect.TypeOf(zoo.FreshTypes[k])
+	v := reflect.New(t).Elem()
+	v.Field(0).SetInt(int64(k))
+	v.Field(1).SetString(fmt.Sprintf("beta%d", k))
+	v.Field(2).SetInt(int64(k) << 33)
+	v.Field(3).SetBool(k%2 == 0)
+	v.Field(4).SetFloat(float64(k) + 0.5)
+	v.Field(5).Set(reflect.ValueOf([]int32{int32(k), 2}))
+	v.Field(6).Set(reflect.ValueOf(&zoo.Small{Name: "s", N: int32(k)}))
+	v.Field(7).Set(reflect.ValueOf(map[string]int32{"k": int32(k)}))
+	v.Field(8).Set(reflect.ValueOf([]string{"a", ""}))
+	v.Field(9).SetInt(int64(k % 100))
+	return v.Interface()
+}
+
+// gate: a writer / reader that stops its caller at the after-th call until released.
+type gate struct {
+	n, after        int
+	reached, resume chan struct{}
+}
+
+func newGate(after int) *gate {
+	return &gate{after: after, reached: make(chan struct{}), resume: make(chan struct{})}
+}
+
+func (g *gate) pass() {
+	if g.n == g.after {
+		close(g.reached)
+		<-g.resume
+	}
+	g.n++
+}
+
+type gateWriter struct {
+	*gate
+	buf bytes.Buffer
+}
+
+func (g *gateWriter) Write(p []byte) (int, error) {
+	g.pass()
+	return g.buf.Write(p)
+}
+
+type gateReader struct {
+	*gate
+	r drv.ChoppyReader
+}
+
+func (g *gateReader) Read(p []byte) (int, error) {
+	g.pass()
+	return g.r.Read(p)
+}
+
+func (g *gateReader) ReadRune() (rune, int, error) {
+	g.pass()
+	return g.r.ReadRune()
+}
+
+// safely runs f; a panic is reported as an error
+func safely(f func() error) (err error) {
+	defer func() {
+		if r := recover(); r != nil {
+			err = fmt.Errorf("panic: %v", r)
+		}
+	}()
+	return f()
+}
+
+// gatePhase: instance A is stopped in the middle of its FIRST message of a fresh type (after k
+// writes / reads) while instance B handles a whole message of the same type; then A goes on.
+// Both must produce what a single instance produces alone (computed afterwards on map copies).
+func gatePhase(w *shardWriter, id *int, tm map[string]reflect.Type, nm map[string]string, tmCopy map[string]reflect.Type, nmCopy map[string]string,
+	ep, dp, sp hessian.Pool, first, count int) int {
+	type res struct {
+		k          int
+		dec        bool
+		in         []byte
+		aOut, bOut []byte
+		aR, bR     interface{}
+		aBad, bBad int
+	}
+	var all []res
+	for k := first; k < first+count; k++ {
+		v := freshValue(k)
+		r := res{k: k}
+		if k%2 == 0 { // encoders
+			gw := &gateWriter{gate: newGate((k / 2) % 34)}
+			done := make(chan struct{})
+			go func() {
+				defer close(done)
+				err := safely(func() error {
+					switch (k / 2) % 3 {
+					case 0:
+						return hessian.NewEncoder(nil, nm).WriteTo(gw, v)
+					case 1:
+						e := ep.Get().(*hessian.Encoder)
+						defer ep.Return(e)
+						return e.WriteTo(gw, v)
+					default:
+						s := sp.Get().(hessian.Serializer)
+						defer sp.Return(s)
+						return s.WriteTo(gw, v)
+					}
+				})
+				r.aBad = b2i(err != nil)
+			}()
+			select {
+			case <-gw.reached:
+			case <-done:
+			}
+			err := safely(func() error {
+				var e error
+				switch (k / 6) % 3 {
+				case 0:
+					r.bOut, e = hessian.NewEncoder(nil, nm).Encode(v)
+				case 1:
+					enc := ep.Get().(*hessian.Encoder)
+					r.bOut, e = enc.Encode(v)
+					ep.Return(enc)
+				default:
+					r.bOut, e = hessian.ToBytes(v, nm)
+				}
+				return e
+			})
+			r.bBad = b2i(err != nil)
+			close(gw.resume)
+			<-done
+			r.aOut = gw.buf.Bytes()
+		} else { // decoders: the input is rendered first (the encoder side has then seen the type, the decoder side has not)
+			r.dec = true
+			r.in, _ = hessian.ToBytes(v, nmCopy)
+			gr := &gateReader{gate: newGate((k / 2) % 20), r: drv.ChoppyReader{B: r.in, Max: 3}}
+			done := make(chan struct{})
+			go func() {
+				defer close(done)
+				err := safely(func() error {
+					var e error
+					switch (k / 2) % 3 {
+					case 0:
+						r.aR, e = hessian.NewDecoder(nil, tm).ReadFrom(gr)
+					case 1:
+						d := dp.Get().(*hessian.Decoder)
+						defer dp.Return(d)
+						r.aR, e = d.ReadFrom(gr)
+					default:
+						s := sp.Get().(hessian.Serializer)
+						defer sp.Return(s)
+						r.aR, e = s.ReadFrom(gr)
+					}
+					return e
+				})
+				r.aBad = b2i(err != nil)
+			}()
+			select {
+			case <-gr.reached:
+			case <-done:
+			}
+			err := safely(func() error {
+				var e error
+				if (k/6)%2 == 0 {
+					r.bR, e = hessian.NewDecoder(nil, tm).Decode(r.in)
+				} else {
+					r.bR, e = hessian.ToObject(r.in, tm)
+				}
+				return e
+			})
+			r.bBad = b2i(err != nil)
+			close(gr.resume)
+			<-done
+		}
+		all = append(all, r)
+	}
+	// afterwards: what one instance alone produces
+	for _, r := range all {
+		v := freshValue(r.k)
+		ev := proj.M{"ev": "conc", "sched": []int{1, 2, 1}, "bads": []int{r.aBad, r.bBad}, "abads": []int{0, 0}}
+		if !r.dec {
+			alone, _ := hessian.ToBytes(v, nmCopy)
+			ev["outs"] = [][]int{proj.Octets(r.aOut), proj.Octets(r.bOut)}
+			ev["alone"] = [][]int{proj.Octets(alone), proj.Octets(alone)}
+			ev["rs"], ev["ars"] = []proj.M{}, []proj.M{}
+			ev["label"] = fmt.Sprintf("gate/encode/F%03d/after%d", r.k, (r.k/2)%34)
+		} else {
+			alone, _ := hessian.ToObject(r.in, tmCopy)
+			ev["outs"], ev["alone"] = [][]int{}, [][]int{}
+			ev["rs"] = []proj.M{proj.New(nm).ProjectMany([]interface{}{r.aR}), proj.New(nm).ProjectMany([]interface{}{r.bR})}
+			ev["ars"] = []proj.M{proj.New(nm).ProjectMany([]interface{}{alone}), proj.New(nm).ProjectMany([]interface{}{alone})}
+			ev["label"] = fmt.Sprintf("gate/decode/F%03d/after%d", r.k, (r.k/2)%20)
+		}
+		w.writeID(ev, *id)
+		*id++
+	}
+	return len(all)
+}
+
+// failing calls with deterministic messages
+var concFailing = []interface{}{zoo.BadChan{}, []interface{}{int32(1), make(chan int)}, map[string]interface{}{"f": func() {}}}
+var concGarbage = [][]byte{{0x43, 0x05, 'a'}, {0x7a, 0x91}, {0x51, 0x95}, {0x4f, 0x95}, {0x56, 0x03, 'x', 'y', 'z', 0x92, 0x91, 0x92}, {0x48, 0x91}, {0x40}}
+
 // runConcLoad: goroutines with their own instances over shared maps and shared inputs.
 func runConcLoad(seed int64, tier, out string, shards int) {
 	w := newShardWriter(out, "trace", shards)
 	defer w.close()
-	vals, tm, nm := concValues()
-	// what every call returns when run alone: computed over COPIES of the maps, so that the
-	// shared maps are first touched by the concurrent phase itself
+	vals, _, _ := concValues()
+	nFresh := 120
+	if tier == "thorough" {
+		nFresh = len(zoo.FreshTypes)
+	}
+	var allv []interface{}
+	allv = append(allv, vals...)
+	for k := 0; k < len(zoo.FreshTypes); k++ {
+		allv = append(allv, freshValue(k))
+	}
+	tm, nm := hessian.ExtractTypeNameMap(allv)
+	// what every call returns when run alone is computed AFTERWARDS and over COPIES of the maps, so that
+	// the shared maps, and whatever the library keeps per type or per call site, are first touched by the
+	// concurrent phase itself
 	nmCopy := map[string]string{}
 	for k, v := range nm {
 		nmCopy[k] = v
@@ -235,17 +447,7 @@ func runConcLoad(seed int64, tier, out string, shards int) {
 	for k, v := range tm {
 		tmCopy[k] = v
 	}
-	alone := make([][]int, len(vals))
-	for i, v := range vals {
-		b, _ := hessian.ToBytes(v, nmCopy)
-		alone[i] = proj.Octets(b)
-	}
-	// legal encodings in wire forms the library's encoder never writes, decoded concurrently
 	foreign := foreignInputs()
-	foreignAlone := make([]interface{}, len(foreign))
-	for i, b := range foreign {
-		foreignAlone[i], _ = hessian.ToObject(b, tmCopy)
-	}
 	r := rand.New(rand.NewSource(seed))
 	rounds := 4
 	calls := 60
@@ -255,76 +457,147 @@ func runConcLoad(seed int64, tier, out string, shards int) {
 	id := 0
 	total := 0
 	samples := []interface{}{}
+	type rec struct {
+		vi   int
+		out  []int
+		bad  int
+		rbad int
+		r    interface{}
+	}
+	type frec struct {
+		fi int
+		r  interface{}
+		e  int
+	}
+	type erec struct {
+		enc bool
+		i   int
+		msg string
+	}
+	type roundLog struct {
+		gs    int
+		logs  [][]rec
+		flogs [][]frec
+		elogs [][]erec
+	}
+	var rls []roundLog
 	for round := 0; round < rounds; round++ {
 		gs := []int{2, 3, 8, 16, 32, 64}[r.Intn(6)]
 		ep, dp, sp := hessian.NewEncoderPool(4, nm), hessian.NewDecoderPool(4, tm), hessian.NewSerializerPool(4, tm, nm)
-		type rec struct {
-			vi   int
-			out  []int
-			bad  int
-			rbad int
-			r    interface{}
+		if round == 0 {
+			total += gatePhase(w, &id, tm, nm, tmCopy, nmCopy, ep, dp, sp, 0, nFresh)
 		}
-		logs := make([][]rec, gs)
-		type frec struct {
-			fi int
-			r  interface{}
-		}
-		flogs := make([][]frec, gs) // foreign inputs whose concurrent result differs from the result alone
+		rl := roundLog{gs: gs, logs: make([][]rec, gs), flogs: make([][]frec, gs), elogs: make([][]erec, gs)}
 		var wg sync.WaitGroup
+		start := make(chan struct{})
 		for g := 0; g < gs; g++ {
 			wg.Add(1)
 			rg := rand.New(rand.NewSource(seed*100 + int64(round)*1000 + int64(g)))
 			go func(g int) {
 				defer wg.Done()
+				<-start
 				for c := 0; c < calls; c++ {
 					vi := rg.Intn(len(vals))
 					var b []byte
 					var err, err2 error
 					var res interface{}
-					switch (g + c) % 4 {
-					case 0:
-						b, err = hessian.ToBytes(vals[vi], nm)
-						res, err2 = hessian.ToObject(b, tm)
-					case 1:
-						e := ep.Get().(*hessian.Encoder)
-						b, err = e.Encode(vals[vi])
-						ep.Return(e)
-						d := dp.Get().(*hessian.Decoder)
-						res, err2 = d.Decode(b)
-						dp.Return(d)
-					case 2:
-						s := sp.Get().(hessian.Serializer)
-						b, err = s.ToBytes(vals[vi])
-						res, err2 = s.ToObject(b)
-						sp.Return(s)
-					default:
-						e := hessian.NewEncoder(nil, nm)
-						b, err = e.Encode(vals[vi])
-						res, err2 = hessian.NewDecoder(nil, tm).Decode(b)
-					}
+					err = safely(func() error {
+						var e error
+						switch (g + c) % 4 {
+						case 0:
+							b, e = hessian.ToBytes(vals[vi], nm)
+						case 1:
+							enc := ep.Get().(*hessian.Encoder)
+							b, e = enc.Encode(vals[vi])
+							ep.Return(enc)
+						case 2:
+							s := sp.Get().(hessian.Serializer)
+							b, e = s.ToBytes(vals[vi])
+							sp.Return(s)
+						default:
+							b, e = hessian.NewEncoder(nil, nm).Encode(vals[vi])
+						}
+						return e
+					})
+					err2 = safely(func() error {
+						var e error
+						switch (g + c) % 4 {
+						case 0:
+							res, e = hessian.ToObject(b, tm)
+						case 1:
+							d := dp.Get().(*hessian.Decoder)
+							res, e = d.Decode(b)
+							dp.Return(d)
+						case 2:
+							s := sp.Get().(hessian.Serializer)
+							res, e = s.ToObject(b)
+							sp.Return(s)
+						default:
+							res, e = hessian.NewDecoder(nil, tm).Decode(b)
+						}
+						return e
+					})
 					rc := rec{vi: vi, out: proj.Octets(b), bad: b2i(err != nil), rbad: b2i(err2 != nil)}
 					if c < 6 {
 						rc.r = res
 					}
-					logs[g] = append(logs[g], rc)
-					// and one foreign-form input per call, through a pooled decoder
+					rl.logs[g] = append(rl.logs[g], rc)
+					// one foreign-form input per call, through a pooled decoder
 					fi := rg.Intn(len(foreign))
-					d := dp.Get().(*hessian.Decoder)
-					fr, ferr := d.ReadFrom(&drv.ChoppyReader{B: foreign[fi], Max: 1 + rg.Intn(4)})
-					dp.Return(d)
-					if ferr != nil || !reflect.DeepEqual(fr, foreignAlone[fi]) {
-						flogs[g] = append(flogs[g], frec{fi, fr})
+					var fr interface{}
+					ferr := safely(func() error {
+						d := dp.Get().(*hessian.Decoder)
+						var e error
+						fr, e = d.ReadFrom(&drv.ChoppyReader{B: foreign[fi], Max: 1 + rg.Intn(4)})
+						dp.Return(d)
+						return e
+					})
+					rl.flogs[g] = append(rl.flogs[g], frec{fi, fr, b2i(ferr != nil)})
+					// and calls that fail: the error paths run concurrently too (from the very first call on)
+					if c < 4 || c%4 == 0 {
+						i := rg.Intn(len(concFailing))
+						e1 := safely(func() error { _, e := hessian.ToBytes(concFailing[i], nm); return e })
+						rl.elogs[g] = append(rl.elogs[g], erec{true, i, drv.ErrStr(e1)})
+						j := rg.Intn(len(concGarbage))
+						e2 := safely(func() error { _, e := hessian.ToObject(concGarbage[j], tm); return e })
+						rl.elogs[g] = append(rl.elogs[g], erec{false, j, drv.ErrStr(e2)})
 					}
 				}
 			}(g)
 		}
+		close(start)
 		wg.Wait()
-		for g := 0; g < gs; g++ {
+		rls = append(rls, rl)
+		if len(samples) < 3 {
+			samples = append(samples, proj.M{"goroutines": gs, "calls_each": calls})
+		}
+	}
+	// afterwards: every call alone
+	alone := make([][]int, len(vals))
+	for i, v := range vals {
+		b, _ := hessian.ToBytes(v, nmCopy)
+		alone[i] = proj.Octets(b)
+	}
+	foreignAlone := make([]interface{}, len(foreign))
+	for i, b := range foreign {
+		foreignAlone[i], _ = hessian.ToObject(b, tmCopy)
+	}
+	encAlone := make([]string, len(concFailing))
+	for i, v := range concFailing {
+		_, e := hessian.ToBytes(v, nmCopy)
+		encAlone[i] = drv.ErrStr(e)
+	}
+	decAlone := make([]string, len(concGarbage))
+	for i, b := range concGarbage {
+		_, e := hessian.ToObject(b, tmCopy)
+		decAlone[i] = drv.ErrStr(e)
+	}
+	for round, rl := range rls {
+		for g := 0; g < rl.gs; g++ {
 			cs := [][]interface{}{}
 			var rsamp []interface{}
 			var rvi []int
-			for c, rc := range logs[g] {
+			for c, rc := range rl.logs[g] {
 				cs = append(cs, []interface{}{rc.vi + 1, rc.out, rc.bad, rc.rbad})
 				if c < 6 {
 					rsamp = append(rsamp, rc.r)
@@ -337,24 +610,29 @@ func runConcLoad(seed int64, tier, out string, shards int) {
 				pairs = append(pairs, proj.M{"v": P.Project(vals[vi-1]).JSON(), "r": P.Project(rsamp[k]).JSON()})
 			}
 			// foreign inputs: the differing pairs (result alone, result under load) are handed to TLC
-			for _, fr := range flogs[g] {
-				if len(pairs) < 12 {
+			for _, fr := range rl.flogs[g] {
+				if (fr.e == 1 || !reflect.DeepEqual(fr.r, foreignAlone[fr.fi])) && len(pairs) < 12 {
 					pairs = append(pairs, proj.M{"v": P.Project(foreignAlone[fr.fi]).JSON(), "r": P.Project(fr.r).JSON()})
 				}
 			}
-			ev := proj.M{"ev": "concload", "g": g, "gs": gs, "calls": cs, "alone": alone, "rvi": rvi,
-				"pairs": pairs, "T": P.Types,
-				"label": fmt.Sprintf("load/round%d/g%d of %d", round, g, gs)}
+			errs := [][]string{}
+			for _, er := range rl.elogs[g] {
+				if er.enc {
+					errs = append(errs, []string{er.msg, encAlone[er.i]})
+				} else {
+					errs = append(errs, []string{er.msg, decAlone[er.i]})
+				}
+			}
+			ev := proj.M{"ev": "concload", "g": g, "gs": rl.gs, "calls": cs, "alone": alone, "rvi": rvi,
+				"pairs": pairs, "T": P.Types, "errs": errs,
+				"label": fmt.Sprintf("load/round%d/g%d of %d", round, g, rl.gs)}
 			w.writeID(ev, id)
 			id++
 			total += len(cs)
 		}
-		if len(samples) < 3 {
-			samples = append(samples, proj.M{"goroutines": gs, "calls_each": calls})
-		}
 	}
 	s := proj.M{"evaluations": total, "traces": id, "distinct_nontrivial": id, "samples": samples,
-		"family_rule": "2..64 goroutines, each with its own (direct, pool-issued) encoder/decoder/serializer over shared maps and shared read-only inputs, race-detector build; every call's octets compared with the octets of the same call alone"}
+		"family_rule": "gate phase: an instance stopped after k writes / reads of its FIRST message of a type nothing in the process has used, while a second instance handles a whole message of that type (k = 0..33, direct / pool-issued / serializer), 120 (400) fresh types; load phase: 2..64 goroutines released together, each with its own (direct, pool-issued) encoder/decoder/serializer over shared maps and shared read-only inputs, failing calls included, race-detector build; every call's octets, results and error texts compared with the same call alone, computed afterwards"}
 	b, _ := json.Marshal(s)
 	os.WriteFile(out+"/summary.json", b, 0o644)
 }
